@@ -39,6 +39,8 @@ var whitelist = []fnSpec{
 	{"tak", "slide.go", "SlideIterator", "Elem", "slideIterElem"},
 	{"tei", "server.go", "", "calcBudget", "calcBudget"},
 	{"prove", "pn.go", "", "saturatingAdd", "saturatingAdd"},
+	{"prove", "dfpn.go", "proofNumbers", "exceeded", "pnExceeded"},
+	{"prove", "dfpn.go", "proofNumbers", "solved", "pnSolved"},
 }
 
 type tclass int
